@@ -6,10 +6,15 @@ package topologyaware
 // topology-aware policy, through its public entry points.
 
 import (
+	"time"
+
 	cfgapi "github.com/containers/nri-plugins/pkg/apis/config/v1alpha1/resmgr/policy/topologyaware"
 	"github.com/containers/nri-plugins/pkg/resmgr/cache"
+	"github.com/containers/nri-plugins/pkg/resmgr/events"
 	libmem "github.com/containers/nri-plugins/pkg/resmgr/lib/memory"
+	policyapi "github.com/containers/nri-plugins/pkg/resmgr/policy"
 	v1 "k8s.io/api/core/v1"
+	metav1 "k8s.io/apimachinery/pkg/apis/meta/v1"
 )
 
 func (w *verifWorld) libmemEmpty() bool {
@@ -548,5 +553,98 @@ func VerifC13TAImplicitAffinities() {
 		}
 		verifAssert("C13.ta.implicit.colocate-pods-follows-config", w.cache.implicit[PolicyName+":colocate-pods"] == (cur&1 != 0))
 		verifAssert("C13.ta.implicit.colocate-namespaces-follows-config", w.cache.implicit[PolicyName+":colocate-namespaces"] == (cur&2 != 0))
+	}
+}
+
+// ---- cold start (C12: memory.preserve containers are left alone by it too)
+
+var verifTimers []func()
+
+// verifAfterFunc is the engine's model of time.AfterFunc: the callback is
+// queued and fired by the harness (verifFireTimers); natively the real timer
+// runs.
+func verifAfterFunc(d time.Duration, f func()) *time.Timer {
+	verifTimers = append(verifTimers, f)
+	return &time.Timer{}
+}
+
+// verifTimerStop is the engine's model of (*time.Timer).Stop.
+func verifTimerStop(t *time.Timer) bool { return true }
+
+// verifFireTimers lets every armed timer expire: under the engine the queued
+// callbacks run now, natively the harness waits for the (1 ms) timers.
+func verifFireTimers() {
+	if verifSymbolic() {
+		fs := verifTimers
+		verifTimers = nil
+		for _, f := range fs {
+			f()
+		}
+		return
+	}
+	time.Sleep(100 * time.Millisecond)
+}
+
+// verifColdStartPreference is the engine's model of coldStartPreference (its
+// yaml decoding cannot be executed): a container whose pod carries the
+// cold-start annotation asks for a 1 ms cold start.
+func verifColdStartPreference(pod cache.Pod, container cache.Container) (ColdStartPreference, error) {
+	if _, ok := pod.GetEffectiveAnnotation(preferColdStartKey, container.GetName()); !ok {
+		return ColdStartPreference{}, nil
+	}
+	return ColdStartPreference{Duration: metav1.Duration{Duration: time.Millisecond}}, nil
+}
+
+// VerifC12TAColdStart: a container opted out of memory pinning
+// (memory.preserve, or pinMemory off) or an ordinary one, with or without a
+// cold-start request, is created and started; the cold-start timer, if one
+// was armed, expires and its event is delivered: the opted-out container is
+// never told memory nodes.
+func VerifC12TAColdStart() {
+	machine := verifParam("machine", 3) // the machine with a PMEM node
+	_, _, ncpu := verifMachine(machine)
+	allowed, reserved, isolated := verifSymbolicConstraints(ncpu, 0)
+	kind := []int{verifOptNone, verifOptMemPreserve, verifOptNoPinMemory}[verifChoice("optout", 3)]
+	cfg := verifDefaultConfig()
+	if kind == verifOptNoPinMemory {
+		cfg.PinMemory = false
+	}
+	w := verifNewPolicy(machine, allowed, reserved, isolated, cfg)
+	var sent []*events.Policy
+	w.p.options = &policyapi.BackendOptions{SendEvent: func(e interface{}) error {
+		if pe, ok := e.(*events.Policy); ok {
+			sent = append(sent, pe)
+		}
+		return nil
+	}}
+	verifTimers = nil
+	c0 := w.newContainer(int64(verifParam("maxMilli", 1000)))
+	if kind == verifOptMemPreserve {
+		c0.pod.annotations[cache.PreserveMemoryKey] = "true"
+	}
+	cold := verifChoice("cold-start", 2) == 1
+	if cold {
+		c0.pod.annotations[preferColdStartKey] = "duration: 1ms"
+	}
+	c0.mems = "0"
+	memsBefore := c0.mems
+	if err := w.p.AllocateResources(c0); err != nil {
+		return
+	}
+	c0.state = cache.ContainerStateRunning
+	if _, err := w.p.HandleEvent(&events.Policy{Type: events.ContainerStarted, Source: "harness", Data: cache.Container(c0)}); err != nil {
+		verifAssert("C12.ta.coldstart.started-event-handled", false)
+		return
+	}
+	verifFireTimers()
+	for _, e := range sent {
+		verifCover("cold-start-timer-expired")
+		w.p.HandleEvent(e)
+	}
+	verifCover("cold-start-history-done")
+	if kind != verifOptNone {
+		verifAssert("C12.ta.coldstart.memory-optout-mems-unchanged", c0.mems == memsBefore)
+	} else if cold && len(sent) > 0 {
+		verifCover("ordinary-container-repinned-after-cold-start")
 	}
 }
